@@ -95,13 +95,18 @@ fn synthetic(mode: &str) -> Option<SyntheticData> {
 fn part_a(ctx: &Ctx, head: &mut Report) {
     part_a_variant(ctx, head, "by-path");
     part_a_variant(ctx, head, "by-name");
+    part_a_variant(ctx, head, "qualified");
 }
 
 /// `naming`: "by-path" = tables named after their SQL path, registered once; "by-name" = Qrlew names that differ from
 /// the paths, registered under both (what Database::relations() builds), the privacy unit referring to the names
 fn part_a_variant(ctx: &Ctx, head: &mut Report, naming: &'static str) {
     let world = World::standard();
-    let relations = if naming == "by-name" { world.relations_named() } else { world.relations() };
+    let relations = match naming {
+        "by-name" => world.relations_named(),
+        "qualified" => world.relations_qualified(),
+        _ => world.relations(),
+    };
     let mut subjects: Vec<(String, Arc<Relation>)> = vec![];
     let step = ctx.tier.pick(2, 1);
     for (i, g) in queries(ctx.tier).into_iter().enumerate() {
@@ -116,6 +121,12 @@ fn part_a_variant(ctx: &Ctx, head: &mut Report, naming: &'static str) {
         vec![
             ("all-protected-by-name", crate::c18::privacy_unit_named(), vec!["people", "purchases", "lines", "mm"]),
             ("users-only-by-name", PrivacyUnit::from((vec![("people", vec![], "id")], false)), vec!["people"]),
+        ]
+    } else if naming == "qualified" {
+        // schema-qualified paths, default names (main_users ...): the privacy unit names the last path component
+        vec![
+            ("all-protected-qualified", crate::c18::privacy_unit(), vec!["main_users", "main_orders", "main_items", "main_m"]),
+            ("users-only-qualified", PrivacyUnit::from((vec![("users", vec![], "id")], false)), vec!["main_users"]),
         ]
     } else {
         vec![
@@ -222,6 +233,7 @@ fn part_b(ctx: &Ctx, head: &mut Report) {
     let world = if ctx.tier == Tier::Quick { World::compact() } else { World::standard() };
     let relations_by_path = world.relations();
     let relations_by_name = world.relations_named();
+    let relations_qualified = world.relations_qualified();
     // programs: the DP aggregation queries, plus plain queries (published through synthetic data)
     let mut programs: Vec<(String, Vec<&'static str>)> = dp_queries(ctx.tier).into_iter().map(|q| (q.sql, q.tables)).collect();
     for (sql, t) in [
@@ -244,12 +256,16 @@ fn part_b(ctx: &Ctx, head: &mut Report) {
     }
     let mut progs: Vec<Prog> = vec![];
     for (sql, tables) in programs {
-        for (sd, naming) in [("none", "by-path"), ("full", "by-path"), ("partial", "by-path"), ("none", "by-name")] {
+        for (sd, naming) in [("none", "by-path"), ("full", "by-path"), ("partial", "by-path"), ("none", "by-name"), ("none", "qualified")] {
             let id = if naming == "by-path" { format!("flow :: {} [sd={sd}]", sql) } else { format!("flow :: {} [sd={sd} naming={naming}]", sql) };
             if !ctx.wants(&id) {
                 continue;
             }
-            let (relations, pu) = if naming == "by-name" { (&relations_by_name, crate::c18::privacy_unit_named()) } else { (&relations_by_path, crate::c18::privacy_unit()) };
+            let (relations, pu) = match naming {
+                "by-name" => (&relations_by_name, crate::c18::privacy_unit_named()),
+                "qualified" => (&relations_qualified, crate::c18::privacy_unit()),
+                _ => (&relations_by_path, crate::c18::privacy_unit()),
+            };
             let r = guarded(|| -> Result<Relation, String> {
                 let rel = Relation::try_from(parse(&sql).map_err(|e| e.to_string())?.with(relations)).map_err(|e| e.to_string())?;
                 let dp = DpParameters::new(1.0, 1e-3, 0.5, 100.0, 1.0, 1);
@@ -361,7 +377,7 @@ fn part_b(ctx: &Ctx, head: &mut Report) {
                             if !responds {
                                 let what = if k.1 == usize::MAX { "row-presence" } else { "cell" };
                                 r.violation(
-                                    format!("plain-function-of-protected-rows {what} sd={}{} :: {}", p.sd, if p.naming == "by-path" { "" } else { " naming=by-name" }, p.sql),
+                                    format!("plain-function-of-protected-rows {what} sd={}{} :: {}", p.sd, if p.naming == "by-path" { String::new() } else { format!(" naming={}", p.naming) }, p.sql),
                                     &case_id,
                                     json!({"query": p.sql, "synthetic_data": p.sd, "database": show_db(db), "removed_unit": u, "group": k.0, "column": if k.1 == usize::MAX { json!("(row presence)") } else { json!(a0.cols.get(k.1)) },
                                            "on_D": x.map(|c| c.show()), "on_D_minus_u": y.map(|c| c.show()), "result_on_D": a0.show(), "result_on_D_minus_u": b0.show(),
